@@ -130,6 +130,19 @@ func (x *Exec) assumeInvariants(st *State, l *Loop) {
 			st.add(t)
 		}
 	}
+	for _, as := range x.ct.LoopAsm[l.Ordinal] {
+		if t, ok := x.evalSpec(st, as.Expr, "inv"); ok {
+			st.add(t)
+			txt := fmt.Sprintf("%s loop %d: %s", relName(x.fn), l.Ordinal, as.Text)
+			seen := false
+			for _, a := range x.assumedClauses {
+				seen = seen || a == txt
+			}
+			if !seen {
+				x.assumedClauses = append(x.assumedClauses, txt)
+			}
+		}
+	}
 }
 
 func (x *Exec) havocLoop(st *State, l *Loop) {
@@ -192,6 +205,7 @@ func (x *Exec) havocLoop(st *State, l *Loop) {
 		}
 	}
 	x.havoc(st, mods)
+	x.havocLoopCalls(st, l)
 	for _, lc := range locs {
 		arr := st.heapArr(lc.key, heapSorts[lc.key])
 		nv := x.freshVar("loopmod", arr.Sort.ArrElem())
